@@ -1758,6 +1758,186 @@ theorem matchLoop_keeps_fpre (fuel : Nat) : ∀ (e : Engine M) (sym : Nat) (cur 
           have := ih e4 sym b (resel e4 b) resel st t0 P (by rw [hcfg2, hcfg1]; exact hal) (FPre.stored hp2)
           exact ⟨this.1, by rw [this.2, hcfg2, hcfg1]⟩
 
+/-- the stored rows after NEW MINUTE -/
+theorem new_minute_short (e : Engine M) (sym : Nat) (c : Candle) (t0 : Int) (P : List Candle)
+    (hal : AlignedCfg e.cfg sym t0) (hi : EInv e sym t0 P) (hc : c.ts = t0 + 60000 * (P.length : Int)) :
+    (storeOf (addCandle e sym 1 c) sym).short = P ++ [c] := by
+  have hst := StoreFrame.storeOf_addCandle e sym 1 c hi.hs
+  simp only [if_true] at hst
+  rw [hst]
+  have hc0 : ¬ c.ts = 0 := by
+    rw [hc]; have : (0 : Int) ≤ (P.length : Int) := Int.natCast_nonneg _
+    have := hal.1; omega
+  show Store.addCandle (storeOf e sym).short c = P ++ [c]
+  rw [hi.short]
+  unfold Store.addCandle
+  simp only [hc0, if_false]
+  cases hl2 : P.getLast? with
+  | none => rfl
+  | some last =>
+    have hne2 : P ≠ [] := by intro h0; rw [h0] at hl2; simp at hl2
+    have hpos : 0 < P.length := List.length_pos_iff.mpr hne2
+    have hle : last = P[P.length - 1] := by
+      rw [List.getLast?_eq_getElem?, List.getElem?_eq_getElem (by omega)] at hl2
+      injection hl2 with h; exact h.symm
+    have hlts : last.ts = t0 + 60000 * ((P.length - 1 : Nat) : Int) := by rw [hle]; exact hi.spaced _ (by omega)
+    have hgt : c.ts > last.ts := by
+      rw [hc, hlts]
+      have : ((P.length - 1 : Nat) : Int) < (P.length : Int) := by exact_mod_cast (by omega : P.length - 1 < P.length)
+      omega
+    simp only [hgt, if_true]
+
+/-- the stored rows after REPLACE LAST -/
+theorem replace_last_short (e : Engine M) (sym : Nat) (c : Candle) (t0 ts : Int) (P : List Candle)
+    (hal : AlignedCfg e.cfg sym t0) (hp : EPre e sym t0 ts P) (hc : c.ts = ts) :
+    (storeOf (addCandle e sym 1 c) sym).short = P ++ [c] := by
+  have hst := StoreFrame.storeOf_addCandle e sym 1 c hp.hs
+  simp only [if_true] at hst
+  rw [hst]
+  show Store.addCandle (storeOf e sym).short c = P ++ [c]
+  obtain ⟨l1, hl1, hl1ts⟩ := hp.last
+  have hne : (storeOf e sym).short ≠ [] := by intro h0; rw [h0] at hl1; simp at hl1
+  have hpos : 0 < (storeOf e sym).short.length := List.length_pos_iff.mpr hne
+  have hl1e : l1 = (storeOf e sym).short[(storeOf e sym).short.length - 1] := by
+    rw [List.getLast?_eq_getElem?, List.getElem?_eq_getElem (by omega)] at hl1
+    injection hl1 with h; exact h.symm
+  have hlts' : l1.ts = t0 + 60000 * (((storeOf e sym).short.length - 1 : Nat) : Int) := by
+    rw [hl1e]; exact hp.spaced _ (by omega)
+  have hr0 : ¬ c.ts = 0 := by
+    rw [hc, ← hl1ts, hlts']
+    have : (0 : Int) ≤ (((storeOf e sym).short.length - 1 : Nat) : Int) := Int.natCast_nonneg _
+    have := hal.1; omega
+  have hcl : c.ts = l1.ts := by rw [hc, hl1ts]
+  unfold Store.addCandle
+  have hngt : ¬ l1.ts > l1.ts := lt_irrefl _
+  have hl0 : ¬ l1.ts = 0 := by rw [← hcl]; exact hr0
+  simp only [hcl, hl0, if_false, hl1, hngt, if_true]
+  rw [hp.pfx]
+
+/-- the state at the end of the per-minute loop of a chunk -/
+structure LInv (e : Engine M) (sym : Nat) (t0 : Int) (rows : List Candle) : Prop where
+  hs : sym < e.stores.length
+  short : (storeOf e sym).short = rows
+  spaced : Spaced t0 rows
+  pre : ∀ m ∈ tfsRaw e.cfg sym, PreInv m rows (longOf (storeOf e sym) m)
+
+/-- THE PER-MINUTE LOOP OF A CHUNK (fast simulator), every strategy: starting from `EInv` with rows `Q`, matching the
+    minutes `rest` one after the other — each stored when an order is executed in it or when its matching is over — ends
+    with the rows `Q ++ rest` stored and `PreInv` for every timeframe, provided no minute but the last one completes a
+    window (the chunk lies inside one window of every timeframe), or the run was stopped by an error. -/
+theorem perMinute_inv (fuel : Nat) (sym : Nat) (real : Candle) (t0 : Int) (rest : List Candle) :
+    ∀ (prev : Option Candle) (e : Engine M) (cands : List Nat) (Q : List Candle),
+      AlignedCfg e.cfg sym t0 → EInv e sym t0 Q → rest ≠ [] →
+      (∀ j (h : j < rest.length), rest[j].ts = t0 + 60000 * ((Q.length + j : Nat) : Int)) →
+      (∀ m ∈ tfsRaw e.cfg sym, ∀ j, j + 1 < rest.length → (Q.length + j + 1) % m ≠ 0) →
+      (simulateChunk.perMinute u fuel sym real rest prev e cands).err.isSome ∨
+      (LInv (simulateChunk.perMinute u fuel sym real rest prev e cands) sym t0 (Q ++ rest) ∧
+       (simulateChunk.perMinute u fuel sym real rest prev e cands).cfg = e.cfg) := by
+  induction rest with
+  | nil => intro prev e cands Q _ _ hne; exact absurd rfl hne
+  | cons c more ih =>
+    intro prev e cands Q hal hi _ hts hwin
+    unfold simulateChunk.perMinute
+    dsimp only
+    split
+    · left; assumption
+    · have hcts : c.ts = t0 + 60000 * (Q.length : Int) := by
+        have := hts 0 (by simp)
+        simpa using this
+      have key : ∀ cur : Candle, cur.ts = c.ts →
+          (match matchLoop u fuel e sym cur cands (chunkReselect sym real more) true with
+           | (e1, cur') =>
+             if e1.err.isSome then e1 else
+             simulateChunk.perMinute u fuel sym real more (some c) (setCurrentPrice (addCandle e1 sym 1 c) sym cur'.c)
+               (if e1.log.length = e.log.length then cands else chunkReselect sym real more e1 cur')).err.isSome ∨
+          (LInv (match matchLoop u fuel e sym cur cands (chunkReselect sym real more) true with
+           | (e1, cur') =>
+             if e1.err.isSome then e1 else
+             simulateChunk.perMinute u fuel sym real more (some c) (setCurrentPrice (addCandle e1 sym 1 c) sym cur'.c)
+               (if e1.log.length = e.log.length then cands else chunkReselect sym real more e1 cur')) sym t0 (Q ++ c :: more) ∧
+           (match matchLoop u fuel e sym cur cands (chunkReselect sym real more) true with
+           | (e1, cur') =>
+             if e1.err.isSome then e1 else
+             simulateChunk.perMinute u fuel sym real more (some c) (setCurrentPrice (addCandle e1 sym 1 c) sym cur'.c)
+               (if e1.log.length = e.log.length then cands else chunkReselect sym real more e1 cur')).cfg = e.cfg) := by
+        intro cur hcur
+        have h := matchLoop_keeps_fpre u fuel e sym cur cands (chunkReselect sym real more) true t0 Q hal
+          (FPre.fresh hi (by rw [hcur]; exact hcts))
+        revert h
+        generalize matchLoop u fuel e sym cur cands (chunkReselect sym real more) true = p
+        intro h
+        obtain ⟨e1, c'⟩ := p
+        dsimp only at h ⊢
+        obtain ⟨hf, hcfg1⟩ := h
+        split
+        · left; assumption
+        · -- the minute is stored (NEW MINUTE if nothing was executed in it, REPLACE LAST otherwise)
+          have hal1 : AlignedCfg e1.cfg sym t0 := by rw [hcfg1]; exact hal
+          have hp2 : EPre (addCandle e1 sym 1 c) sym t0 c.ts Q ∧ (storeOf (addCandle e1 sym 1 c) sym).short = Q ++ [c] := by
+            cases hf with
+            | fresh hi1 _ =>
+              exact ⟨new_minute_gives_pre e1 sym c t0 Q hal1 hi1 hcts, new_minute_short e1 sym c t0 Q hal1 hi1 hcts⟩
+            | stored hp1 =>
+              rw [hcur] at hp1
+              exact ⟨replace_last_keeps_pre e1 sym c t0 c.ts Q hal1 hp1 rfl, replace_last_short e1 sym c t0 c.ts Q hal1 hp1 rfl⟩
+          have hs3 : StoreFrame.SSame (addCandle e1 sym 1 c) (setCurrentPrice (addCandle e1 sym 1 c) sym c'.c) := ⟨rfl, rfl⟩
+          have hp3 := EPre.of_same hs3 hp2.1
+          have hsh3 : (storeOf (setCurrentPrice (addCandle e1 sym 1 c) sym c'.c) sym).short = Q ++ [c] := hp2.2
+          have hcfg3 : (setCurrentPrice (addCandle e1 sym 1 c) sym c'.c).cfg = e.cfg := hcfg1
+          revert hp3 hsh3 hcfg3
+          generalize setCurrentPrice (addCandle e1 sym 1 c) sym c'.c = e3
+          intro hp3 hsh3 hcfg3
+          by_cases hmore : more = []
+          · subst hmore
+            right
+            unfold simulateChunk.perMinute
+            exact ⟨⟨hp3.hs, hsh3, by rw [← hsh3]; exact hp3.spaced, by intro m hm; rw [← hsh3]; exact hp3.pre m hm⟩, hcfg3⟩
+          · -- inside the chunk: no window of any timeframe ends here, so the store satisfies StoreInv again
+            have hi3 : EInv e3 sym t0 (Q ++ [c]) := by
+              refine ⟨hp3.hs, hsh3, by rw [← hsh3]; exact hp3.spaced, ?_⟩
+              intro m hm
+              have hm' : m ∈ tfsRaw e.cfg sym := by rw [← hcfg3]; exact hm
+              have hnb : (Q ++ [c]).length % m ≠ 0 := by
+                have := hwin m hm' 0 (by
+                  have : 0 < more.length := List.length_pos_iff.mpr hmore
+                  simp only [List.length_cons]; omega)
+                simpa using this
+              have hpre := hp3.pre m hm
+              rw [hsh3] at hpre
+              exact inv_of_pre_forming m (Q ++ [c]) _ (hal.2 m hm').1 hnb hpre
+            have hlen : (Q ++ [c]).length = Q.length + 1 := by simp
+            have := ih (some c) e3 (if e1.log.length = e.log.length then cands else chunkReselect sym real more e1 c') (Q ++ [c])
+              (by rw [hcfg3]; exact hal) hi3 hmore
+              (by
+                intro j hj
+                have := hts (j + 1) (by simp only [List.length_cons]; omega)
+                rw [hlen]
+                simp only [List.getElem_cons_succ] at this
+                rw [this]
+                congr 2
+                omega)
+              (by
+                intro m hm j hj
+                rw [hcfg3] at hm
+                have := hwin m hm (j + 1) (by simp only [List.length_cons]; omega)
+                rw [hlen]
+                have e1' : Q.length + 1 + j + 1 = Q.length + (j + 1) + 1 := by omega
+                rw [e1']; exact this)
+            rcases this with herr | ⟨hl, hc⟩
+            · left; exact herr
+            · right
+              refine ⟨?_, by rw [hc, hcfg3]⟩
+              have : Q ++ [c] ++ more = Q ++ c :: more := by simp
+              rw [← this]; exact hl
+      cases prev with
+      | none => exact key c rfl
+      | some p =>
+        have : (fixJump p c).ts = c.ts := by
+          rcases fix_jump_spec p c with h | h
+          · exact h.1
+          · rw [h.2]
+        exact key (fixJump p c) this
+
 end run
 
 end C07
